@@ -37,6 +37,7 @@ from slimta.policy.headers import AddDateHeader
 from vp.core import B
 
 ASSUMPTIONS = [
+    'session stream: validators accept with the default codes (250 / 354) and refuse with 4xx/5xx other than 421 (a 251/252 answer to RCPT or a closing 421/221 is not in the scripted alphabet)',
     'concurrent messages: the model lets every message perform the events of its own sequential run under an arbitrary schedule (per-call state of enqueue/_run_policies is local; the store hands out fresh ids); the concurrent stream checks exactly this on the real code, per client',
     'no SmtpValidators/WsgiValidators class is installed (a handle_queued validator may rewrite the reply arbitrarily)',
     'storage ids are fresh (Queue.enqueue spawns an attempt only for ids not in active_ids)',
@@ -1160,6 +1161,259 @@ def run_concurrent_stream(ctx):
 
 
 
+# ---------------------------------------------------------------- session stream
+# Whole SMTP sessions with a validator class that decides every command: refused MAIL / RCPT /
+# DATA / message data, transactions continued after a refusal, RSET, EHLO, several transactions.
+# Oracle: what the client was told (250 to RCPT since its transaction began) against what is in
+# storage when it reads 2xx for the message.
+from slimta.edge.smtp import SmtpValidators
+
+SESSION_CHAINS = ['none', 'split', 'domain', 'date+split', 'domain+split']
+
+
+def s_addr(i):
+    return 'r%d@dom%d.example' % (i, i % 2)
+
+
+def make_validators(cur):
+    def verdict(reply, key, default):
+        code = cur.get(key)
+        if code and code != default:
+            reply.code = code
+            reply.message = '%s.7.1 scripted verdict' % code[0]
+
+    class ScriptedValidators(SmtpValidators):
+        def handle_ehlo(self, reply, ehlo_as):
+            verdict(reply, 'ehlo', '250')
+
+        def handle_mail(self, reply, sender, params):
+            verdict(reply, 'mail', '250')
+
+        def handle_rcpt(self, reply, rcpt, params):
+            verdict(reply, 'rcpt', '250')
+
+        def handle_data(self, reply):
+            verdict(reply, 'data', '354')
+
+        def handle_have_data(self, reply, data):
+            verdict(reply, 'have_data', '250')
+
+    return ScriptedValidators
+
+
+def run_session(chain, script):
+    """script: [('EHLO', code) | ('RSET',) | ('NOOP',) | ('MAIL', code) | ('RCPT', i, code) |
+    ('DATA', code, have_data_code)].  Returns per command (reply codes, recipients handed to the
+    queue or None, recipients stored at the instant of the final reply or None)."""
+    cur = {}
+    store = DictStorage()
+    handed = []
+
+    class RecordingQueue(Queue):
+        def enqueue(self, envelope):
+            handed.append(list(envelope.recipients))
+            return super(RecordingQueue, self).enqueue(envelope)
+
+    queue = RecordingQueue(store, None)
+    add_policies(queue, chain)
+    state = {'in_data': False, 'before': set(), 'stored': None}
+
+    def on_send(data):
+        if state['in_data'] and REPLY_LINE.search(data) and state['stored'] is None:
+            state['stored'] = sorted(r for id, e in store.env_db.items() if id not in state['before']
+                                     for r in e.recipients)
+
+    sock = DuplexSock(on_send)
+    edge = SmtpEdge(None, queue, validator_class=make_validators(cur), hostname='edge.test')
+    g = gevent.spawn(edge.handle, sock, ('192.0.2.7', 4242))
+
+    def codes():
+        return [c.decode() for c in REPLY_LINE.findall(sock.sent)]
+
+    def command(data, want):
+        sock.feed(data)
+        settle(lambda: len(codes()) >= want or g.dead, 'no reply to %r' % data)
+        if len(codes()) < want:
+            raise HarnessError('session died at %r: %r' % (data, sock.sent))
+        return codes()[want - 1]
+
+    settle(lambda: len(codes()) >= 1 or g.dead, 'banner')
+    n = 1
+    out = []
+    for cmd in [('EHLO', '250')] + list(script):
+        cur.clear()
+        kind = cmd[0]
+        rec = dict(replies=[], handed=None, stored=None)
+        if kind == 'EHLO':
+            cur['ehlo'] = cmd[1]
+            line = b'EHLO client.test\r\n'
+        elif kind == 'RSET':
+            line = b'RSET\r\n'
+        elif kind == 'NOOP':
+            line = b'NOOP\r\n'
+        elif kind == 'MAIL':
+            cur['mail'] = cmd[1]
+            line = b'MAIL FROM:<%s>\r\n' % SENDER.encode()
+        elif kind == 'RCPT':
+            cur['rcpt'] = cmd[2]
+            line = b'RCPT TO:<%s>\r\n' % s_addr(cmd[1]).encode()
+        else:
+            cur['data'], cur['have_data'] = cmd[1], cmd[2]
+            line = b'DATA\r\n'
+        n += 1
+        rec['replies'].append(command(line, n))
+        if kind == 'DATA' and rec['replies'][0] == '354':
+            nh = len(handed)
+            state.update(in_data=True, before=set(store.env_db), stored=None)
+            n += 1
+            rec['replies'].append(command(MSG + b'.\r\n', n))
+            state['in_data'] = False
+            rec['stored'] = state['stored']
+            if len(handed) > nh:
+                rec['handed'] = handed[nh]
+        out.append(rec)
+    sock.feed(b'QUIT\r\n')
+    settle(lambda: g.dead or sock.waiting, 'quit')
+    if not g.dead:
+        sock.feed(b'')
+    g.join(timeout=1)
+    return out[1:]
+
+
+def judge_session(ctx, case, script, out):
+    """client view: from the commands sent and the codes read, nothing else"""
+    acc = []
+    for i, (cmd, rec) in enumerate(zip(script, out)):
+        kind, rs = cmd[0], rec['replies']
+        if kind in ('EHLO', 'RSET') and rs == ['250']:
+            acc = []
+        elif kind == 'MAIL' and rs == ['250']:
+            acc = []
+        elif kind == 'RCPT' and rs == ['250']:
+            acc.append(s_addr(cmd[1]))
+        elif kind == 'DATA' and rs[0] == '354':
+            final = rs[1]
+            if final[0] == '2':
+                stored = rec['stored'] or []
+                missing = [r for r in sorted(acc) if stored.count(r) < acc.count(r)]
+                extra = [r for r in stored if stored.count(r) > acc.count(r)]
+                if missing:
+                    fail(ctx, 'c02:2xx-but-accepted-recipient-not-stored', dict(case, at=i),
+                         'command %d: final reply %s; recipients accepted with 250 in this transaction %r, stored for the message %r'
+                         % (i, final, sorted(acc), stored))
+                elif extra:
+                    fail(ctx, 'c02:2xx-stored-recipient-never-accepted', dict(case, at=i),
+                         'command %d: final reply %s; accepted %r, stored %r' % (i, final, sorted(acc), stored))
+            elif final[0] not in '45':
+                fail(ctx, 'c02:answer-class', dict(case, at=i), 'final reply %s' % final)
+            acc = []
+
+
+SYM = {'M': ('MAIL', '250'), 'Mx': ('MAIL', '550'), 'Mt': ('MAIL', '450'),
+       'R': ('RCPT', None, '250'), 'Rx': ('RCPT', None, '550'), 'Rt': ('RCPT', None, '450'), 'Rd': ('RCPT', 'dup', '250'),
+       'D': ('DATA', '354', '250'), 'Dr': ('DATA', '451', '250'), 'Dp': ('DATA', '554', '250'), 'Dh': ('DATA', '354', '550'),
+       'S': ('RSET',), 'E': ('EHLO', '250'), 'Ex': ('EHLO', '550'), 'N': ('NOOP',)}
+
+
+def concretize(syms):
+    script, k, last = [], 0, 0
+    for x in syms:
+        c = SYM[x]
+        if c[0] == 'RCPT':
+            if c[1] == 'dup':
+                script.append(('RCPT', last, c[2]))
+            else:
+                script.append(('RCPT', k, c[2]))
+                last = k
+                k += 1
+        else:
+            script.append(c)
+    return script
+
+
+def session_cases(ctx):
+    cases = []
+    small = ['M', 'Mx', 'R', 'Rx', 'D', 'Dr', 'Dh', 'S']
+    for L in range(1, (4 if ctx.quick else 5) + 1):
+        for syms in itertools.product(small, repeat=L):
+            if 'D' in syms and 'M' in syms and 'R' in syms:
+                cases.append(syms)
+    # refused DATA, then the transaction goes on (with and without further recipients), 1-2 refusals
+    fam = []
+    for i in (1, 2, 3):
+        for first in (['R'] * i, ['Rt'] + ['R'] * i, ['R'] * i + ['Rx'], ['R', 'Rd'][:i + 1]):
+            for refuse in ('Dr', 'Dp'):
+                for j in (0, 1, 2):
+                    for k in (1, 2):
+                        body = ['M'] + list(first) + ([refuse] + ['R'] * j) * k + ['D']
+                        fam.append(tuple(body))
+                        fam.append(tuple(body + ['M', 'R', 'D']))
+                        fam.append(tuple(['M', 'R', 'S'] + body))
+                        fam.append(tuple(['M', 'R', 'Dh'] + body))
+                        fam.append(tuple(['M', 'R', refuse, 'E'] + body))
+                        fam.append(tuple(['M', 'R', refuse, 'Ex', 'R', 'D']))
+                        fam.append(tuple(['M', 'R', refuse, 'M', 'Rx', 'N', 'D']))
+    seen = set(cases)
+    for f in fam:
+        if f not in seen:
+            seen.add(f)
+            cases.append(f)
+    allsym = sorted(SYM)
+    for _ in range(300 if ctx.quick else 4000):
+        L = ctx.rng.randrange(5, 13)
+        syms = tuple(ctx.rng.choice(allsym if ctx.rng.random() < 0.5 else ['M', 'R', 'R', 'D', 'Dr', 'Dp', 'Rx', 'S', 'Dh', 'Rd'])
+                     for _ in range(L))
+        if 'D' in syms and syms not in seen:
+            seen.add(syms)
+            cases.append(syms)
+    return cases
+
+
+def enc_scmd(cmd):
+    k = cmd[0]
+    if k == 'EHLO':
+        return [0, int(cmd[1])]
+    if k == 'RSET':
+        return [2]
+    if k == 'NOOP':
+        return [6]
+    if k == 'MAIL':
+        return [3, int(cmd[1])]
+    if k == 'RCPT':
+        return [4, cmd[1], int(cmd[2])]
+    return [5, int(cmd[1]), int(cmd[2]), 250]
+
+
+def run_session_stream(ctx):
+    cases = session_cases(ctx)
+    scripts = [concretize(syms) for syms in cases]
+    mouts = ctx.model.batch('c02_session', [[[0, 250]] + [enc_scmd(c) for c in sc] for sc in scripts])
+    for i, (syms, script, mo) in enumerate(zip(cases, scripts, mouts)):
+        chain = SESSION_CHAINS[i % len(SESSION_CHAINS)]
+        out = run_session(chain, script)
+        case = dict(stream='session', chain=chain, script=[list(c) for c in script])
+        refused_then_on = any(a in ('Dr', 'Dp') for a in syms)
+        ctx.evaluated(('session', chain, syms), nontrivial=True)
+        ctx.count('session:len%d' % min(len(syms), 9))
+        ctx.count('session:chain:' + chain)
+        if refused_then_on:
+            ctx.count('session:with-refused-DATA')
+        ctx.count('session:messages-2xx', sum(1 for r in out if len(r['replies']) == 2 and r['replies'][1][0] == '2'))
+        judge_session(ctx, case, script, out)
+        impl = [(r['replies'], sorted(r['handed']) if r['handed'] is not None else None) for r in out]
+        model = []
+        for o in mo[1:]:
+            reps = [str(x[1]) for x in o if x[0] == 0]
+            hand = [sorted(s_addr(a) for a in x[1]) for x in o if x[0] == 1]
+            model.append((reps, hand[0] if hand else None))
+        if impl != model:
+            ctx.mismatch('session', case, impl, model)
+        ctx.sample(dict(case=case, replies=[r['replies'] for r in out],
+                        stored=[r['stored'] for r in out if r['stored'] is not None]), cap=10)
+    return len(cases)
+
+
+
 # ---------------------------------------------------------------- entry points
 class quiet(object):
     """no network (PTR lookups stubbed), no log noise, no tracebacks of the
@@ -1193,6 +1447,7 @@ def run(ctx):
         nr = run_results_stream(ctx)
         np_ = run_proxy_stream(ctx)
         nc, nall = run_concurrent_stream(ctx)
+        ns = run_session_stream(ctx)
     ctx.extra['rule'] = (
         'queue stream: every list of 1-4 storage-write behaviours over {id, QueueError, QueueError+550 reply, other exception} '
         'with no or exactly one slow write at every position, every list of 1-%d behaviours over 8 kinds (attached replies 450/550/250/354/no code) '
@@ -1205,10 +1460,15 @@ def run(ctx):
         '(real DictStorage, plain or with gated writes) with 11 policy chains containing a policy that yields inside apply() (gevent.sleep(0) or a gate; first/middle/last position; '
         'with/without RecipientSplit/RecipientDomainSplit before/after it): %d runs, every interleaving of sends and gate releases for %d configurations, seeded random interleavings for the rest; '
         'oracle per client at the instant it reads 2xx: every one of ITS recipients is stored in an envelope of ITS message; the global event log must be the model\'s interleaving (c02_sched) '
-        'of the per-message runs, i.e. each client\'s events are exactly its own sequential model run. Compared with the model: event trace (write start/tick/done/fail, answer), answer code, attempts spawned, storage contents at the instant of the answer, '
+        'of the per-message runs, i.e. each client\'s events are exactly its own sequential model run. session stream: %d whole SMTP sessions on the real SmtpEdge/Server with a validator class deciding every command '
+        '(MAIL 250/450/550, each RCPT 250/450/550, DATA 354/451/554, received data 250/550, EHLO 250/550), transactions continued after a refused RCPT and after a refused DATA '
+        '(with and without further RCPTs), RSET / EHLO / a second transaction in the same session, duplicate recipients, over real Queue + DictStorage with 5 policy chains incl. the split policies: '
+        'every sequence of up to %d commands over 8 symbols that can complete a message, a family around refused DATA, seeded random longer sessions; oracle from the client side only: '
+        'when the final reply is 2xx the recipients answered 250 since the transaction began are exactly (as a multiset) those stored for the message; replies per command and the handed-off envelope are compared with the session model. '
+        'Compared with the model: event trace (write start/tick/done/fail, answer), answer code, attempts spawned, storage contents at the instant of the answer, '
         'and the trace at every blocked instant against the model run in which that write hangs. '
         'non-trivial = more than one envelope, a failing or slow write, any proxy case, result lists of length != 1'
-        % (2 if ctx.quick else 3, nq, 3 if ctx.quick else 4, nr, np_, nc, nall))
+        % (2 if ctx.quick else 3, nq, 3 if ctx.quick else 4, nr, np_, nc, nall, ns, 4 if ctx.quick else 5))
     ctx.extra.pop('_c02_fail', None)
     ctx.extra['exhaustive'] = True
     ctx.extra['exhaustive_bound'] = (
@@ -1252,6 +1512,16 @@ def replay(ctx, case):
             if ctx.model:
                 mo = ctx.model.call('c02_sched', [0, expected_msgs(cfg), [o for o, e in out['log']]])
                 print('model (per-message runs interleaved as observed):', [(e[0], canon_trace([e[1]])[0]) for e in mo])
+        elif c.get('stream') == 'session':
+            script = [tuple(x) for x in c['script']]
+            out = run_session(c['chain'], script)
+            for cmd, rec in zip(script, out):
+                print('%-28r -> replies %r%s%s' % (cmd, rec['replies'],
+                      ' handed to the queue: %r' % rec['handed'] if rec['handed'] is not None else '',
+                      ' STORED at the final reply: %r' % rec['stored'] if rec['stored'] is not None else ''))
+            if ctx.model:
+                mo = ctx.model.call('c02_session', [[0, 250]] + [enc_scmd(x) for x in script])
+                print('model:', [[(str(x[1]) if x[0] == 0 else [s_addr(a) for a in x[1]]) for x in o] for o in mo[1:]])
         elif c.get('stream') == 'proxy':
             shape = (c['shape'][0],) + ((tuple(c['shape'][1]),) if len(c['shape']) > 1 else ())
             nrcpt = len(shape[1]) if len(shape) > 1 else 2
